@@ -22,6 +22,8 @@ if P:
     L = P['L']
     PARSER = P['parser']
     ASSERTS = set(P.get('asserts', ['member']))
+    COMPLETE = P.get('complete', True)
+    PIN = P.get('pin')
     MP = P.get('mp', True)
     KAT = P.get('kat', False)
     AMBIG = P.get('ambiguity', 'resolve')
@@ -73,6 +75,8 @@ def _body(rec, ix):
                     return hs.fail(rec, 'CYK raised before consuming the input', kinds=kinds)
                 return True
             ended = bool(hs.CUR.get('ended'))
+            if not COMPLETE:
+                return True     # LALR with shift/reduce conflicts: completeness is not promised
             if ended:
                 if is_member:
                     return hs.fail(rec, 'rejected a sentence', kinds=kinds, exc=repr(exc))
@@ -144,7 +148,7 @@ def _corner(ix):
 
 def check(ix: List[int]) -> bool:
     """
-    pre: len(ix) <= L
+    pre: len(ix) <= L and (PIN is None or (len(ix) >= 1 and ix[0] == PIN) or (len(ix) == 0 and PIN == 0))
     post: _
     """
     return hs.run_path(_body, (ix,), corner=_corner)
